@@ -109,6 +109,24 @@ impl<T: Clone> Key<T> {
     }
 }
 
+#[cfg(litep2p_verif)]
+impl<T: Clone> Key<T> {
+    /// Construct a key with chosen raw bytes (verification only).
+    pub fn verif_from_raw(bytes: [u8; 32], preimage: T) -> Key<T> {
+        Self {
+            bytes: KeyBytes(Array::from(bytes)),
+            preimage,
+        }
+    }
+
+    /// Raw key bytes (verification only).
+    pub fn verif_raw(&self) -> [u8; 32] {
+        let mut out = [0u8; 32];
+        out.copy_from_slice(self.bytes.0.as_slice());
+        out
+    }
+}
+
 impl<T: Clone> From<Key<T>> for KeyBytes {
     fn from(key: Key<T>) -> KeyBytes {
         key.bytes
